@@ -17,10 +17,17 @@ _depth = [0]
 _SKIP_RE = re.compile(r"#.*\bpytype:\s*skip-file\b")
 
 
-def _wrap(stage, fn):
+def _wrap(stage, fn, sub=False):
+  """Emit [stage, status, depth] when fn returns or raises.  sub=True marks the three stage
+  functions abstract_utils.eval_expr re-enters for a string annotation / type comment / late
+  annotation (Compile, Blocks, Run): those sub-runs are recorded wherever they happen and the
+  spec's sub-machine (Outcome!AllowedSub) judges them.  Any other stage function re-entered from
+  inside a stage (optimize.Optimize from the pretty printer or a signature's return type) is a
+  helper call of that name, not a pipeline stage, and is passed through."""
   def wrapper(*a, **kw):
-    if _depth[0] > 0:            # a stage function re-entered from inside another stage
-      return fn(*a, **kw)        # (e.g. compile_src for a string annotation during Run)
+    if _depth[0] > 0 and not sub:
+      return fn(*a, **kw)
+    depth = _depth[0]
     _depth[0] += 1
     status = "ok"
     try:
@@ -30,7 +37,7 @@ def _wrap(stage, fn):
       raise
     finally:
       _depth[0] -= 1
-      _events.append([stage, status])
+      _events.append([stage, status, depth])
   wrapper.__wrapped__ = fn
   return wrapper
 
@@ -50,10 +57,10 @@ def install():
   from pytype.pytd import optimize
   pio.read_source_file = _wrap("Read", pio.read_source_file)
   directors.parse_src = _wrap("Directors", directors.parse_src)
-  pyc.compile_src = _wrap("Compile", pyc.compile_src)
-  blocks.process_code = _wrap("Blocks", blocks.process_code)
+  pyc.compile_src = _wrap("Compile", pyc.compile_src, sub=True)
+  blocks.process_code = _wrap("Blocks", blocks.process_code, sub=True)
   constant_folding.fold_constants = _wrap("Fold", constant_folding.fold_constants)
-  vm.VirtualMachine.run_bytecode = _wrap("Run", vm.VirtualMachine.run_bytecode)
+  vm.VirtualMachine.run_bytecode = _wrap("Run", vm.VirtualMachine.run_bytecode, sub=True)
   tracer_vm.CallTracer.analyze = _wrap("Analyze", tracer_vm.CallTracer.analyze)
   tracer_vm.CallTracer.compute_types = _wrap("ComputeTypes", tracer_vm.CallTracer.compute_types)
   optimize.Optimize = _wrap("Optimize", optimize.Optimize)
